@@ -139,3 +139,8 @@ Fixpoint run_life (o : dch_obj) (ops : list op) : list nat :=
   end.
 Definition life_ok (low0 : list Z) (ops : list op) (codes : list nat) : bool :=
   nl_eqb (run_life (fresh low0 0%Q) ops) codes.
+
+(* ================================================================ Part 5: scaling the positions *)
+(* x -> s * x on every low-dimensional coordinate (specification over Z) *)
+Definition zpscale (s : Z) (P : list (list Z)) : list (list Z) :=
+  map (fun p => nth 0 p 0 :: map (Z.mul s) (tl p)) P.
